@@ -374,7 +374,8 @@ class DecorGen:
 import re
 
 ORDINARY = ["/* c */", "/* lookup */", "/*x*/", "/* multi\n   line */", "/* # not-a-macro */", "/**/"]
-LINE = ["# plain", "// plain", "# scope: recv", "#", "// return (pass);", "# TODO: x"]
+LINE = ["# plain", "// plain", "# scope: recv", "#", "// return (pass);", "# TODO: x",
+        "# FASTLY recv", "#fastly recv", "// falco ignore next line", "# ignore-next-line", "// scope: deliver, fetch"]
 
 
 def render(tokens, gaps):
@@ -492,7 +493,7 @@ def decorate(tokens, rng, style):
             elif k < 0.75:
                 g = " /*\n" + "\n".join([code] * (size // len(code))) + "\n*/ "
             elif k < 0.9:
-                g = "\n" * rng.choice([1000, 3000, 5000])
+                g = "\n" * rng.choice([1000, 3000, 5000, 70000])       # line numbers cross 256 and 65536
             else:
                 g = "\n" + rng.choice([" ", "\t"]) * size
             gaps[i] = g
